@@ -433,7 +433,8 @@ func (m *Model) ruleREV(r *Results) {
 		}
 		// evaluated in the function that reads documents.revSeqNo: this one, or the caller that
 		// hands the value to this formatting helper
-		readsRev := func(g *ssa.Function) bool {
+		var readsRev func(g *ssa.Function) bool
+		readsRevIn := func(g *ssa.Function) bool {
 			for _, s := range m.Sites {
 				if s.Fn == g {
 					for _, v := range s.Variants {
@@ -449,20 +450,43 @@ func (m *Model) ruleREV(r *Results) {
 			}
 			return false
 		}
+		// ... itself, or through a row-reading helper it calls
+		readsRev = func(g *ssa.Function) bool {
+			if readsRevIn(g) {
+				return true
+			}
+			hit := false
+			m.eachCall(g, func(c ssa.CallInstruction) {
+				if h := c.Common().StaticCallee(); h != nil && m.inPkg(h) && h != g && readsRevIn(h) {
+					hit = true
+				}
+			})
+			return hit
+		}
 		type ctx struct {
 			fr   *frame
 			name string
 		}
 		var ctxs []ctx
-		if readsRev(fn) {
-			ctxs = append(ctxs, ctx{topFrame(fn), m.declName(fn)})
-		} else {
-			for _, c := range m.staticCallersOf(fn) {
-				if g := c.Parent(); readsRev(g) {
-					ctxs = append(ctxs, ctx{topFrame(g).inline(c, fn), m.declName(g)})
+		// the function that reads documents.revSeqNo: this one, or a caller (through up to three
+		// helper levels) that hands the value down
+		var contextsFor func(f *ssa.Function, depth int) []ctx
+		contextsFor = func(f *ssa.Function, depth int) []ctx {
+			if readsRev(f) {
+				return []ctx{{topFrame(f), m.declName(f)}}
+			}
+			if depth >= 3 {
+				return nil
+			}
+			var out []ctx
+			for _, c := range m.staticCallersOf(f) {
+				for _, up := range contextsFor(c.Parent(), depth+1) {
+					out = append(out, ctx{up.fr.inline(c, f), up.name})
 				}
 			}
+			return out
 		}
+		ctxs = contextsFor(fn, 0)
 		for _, cx := range ctxs {
 			for _, sp := range sprintfs {
 				vals, dyn := varargValues(sp.Common().Args[1])
